@@ -422,11 +422,19 @@ func scenLatePayload(s *ndScen) {
 	for _, x := range S {
 		s.do("t %d", x) // deadline: staged but no payload → next-vote ⊥, Step = next
 	}
-	s.deliver(func(m *ndMsg, in ndInfo) bool { return in.kind == 'P' && in.sender == L && m.src == L && inS(m.dst) && in.period == 0 })
-	s.deliver(func(m *ndMsg, in ndInfo) bool { return in.kind == 'V' && in.step == cert && in.period == 0 && m.dst == S[0] })
-	s.deliver(func(m *ndMsg, in ndInfo) bool { return in.kind == 'V' && in.step == next && in.period == 0 && in.val == "bot" })
+	s.deliver(func(m *ndMsg, in ndInfo) bool {
+		return in.kind == 'P' && in.sender == L && m.src == L && inS(m.dst) && in.period == 0
+	})
+	s.deliver(func(m *ndMsg, in ndInfo) bool {
+		return in.kind == 'V' && in.step == cert && in.period == 0 && m.dst == S[0]
+	})
+	s.deliver(func(m *ndMsg, in ndInfo) bool {
+		return in.kind == 'V' && in.step == next && in.period == 0 && in.val == "bot"
+	})
 	for i := 0; i < 2; i++ { // period 1: proposals (votes and payloads), to everybody
-		s.deliver(func(m *ndMsg, in ndInfo) bool { return (in.kind == 'P' || (in.kind == 'V' && in.step == propose)) && in.period == 1 })
+		s.deliver(func(m *ndMsg, in ndInfo) bool {
+			return (in.kind == 'P' || (in.kind == 'V' && in.step == propose)) && in.period == 1
+		})
 	}
 	for _, x := range ord {
 		s.r.mu.Lock()
